@@ -295,9 +295,11 @@ def cover_tests(ctx, spec_listed):
     """transition cover: TLC-computed shortest prefix per abstract parser state x one token x {'', 'x'}"""
     q = ctx.quick
     jobs = []
-    plans = [("cover", "doc", 3, T_CORE if q else t_all(), 0.04 if q else 1.0),
-             ("cover_afe", "doc", 4 if q else 5, T_FMT, 0.02 if q else 1.0),
-             ("cover", "tableish", 2, T_CORE if q else t_all(), 0.03 if q else 0.5),
+    # (thorough: the shortest prefix of every coarse class still gets every token of the full alphabet; the fractions bound
+    #  the rest so that the whole tier stays within about an hour on 16 cores)
+    plans = [("cover", "doc", 3, T_CORE if q else t_all(), 0.04 if q else 0.3),
+             ("cover_afe", "doc", 4 if q else 5, T_FMT, 0.02 if q else 0.3),
+             ("cover", "tableish", 2, T_CORE if q else t_all(), 0.03 if q else 0.15),
              ("cover_tbl", "doc", 4 if q else 5, T_TBL, 0.25 if q else 1.0)]
     for theme, cont, n, toks, frac in plans:
         r = ctx.tlc("MC_TreeCover", cover_cfg(theme, cont, n, spec_listed), "cover-%s-%s" % (theme, cont), heap="16g")
